@@ -31,8 +31,15 @@ TRUSTED = [
 _coq_eval = gv.coq_eval
 
 
-def _coq_eval_small(name, requires, exprs, shard=60):
-    return _coq_eval(name, requires, exprs, shard=shard)
+def _coq_eval_small(name, requires, exprs, shard=120):
+    """Same function as gv.coq_eval, other batching; a term that is already the literal `true`/`false` (the first
+    component of a pair evaluated before) is not sent through coqc a second time."""
+    todo = [i for i, e in enumerate(exprs) if e not in ("true", "false")]
+    vals = _coq_eval(name, requires, [exprs[i] for i in todo], shard=shard)
+    out = list(exprs)
+    for i, v in zip(todo, vals):
+        out[i] = v
+    return out
 
 
 def flow(tier, seed, only=None):
